@@ -45,3 +45,58 @@ def content_clone(t: str, edit_clone: bool) -> bool:
     a.body.append(Paragraph("y"))
     indep = S.canon(b.root._Element__element) == before and len(a.body.get_elements("text:p")) == 2 and len(b.body.get_elements("text:p")) == 1
     return done(born and indep)
+
+
+def _doc_state(doc):
+    """every XML part as the document itself sees it (canonical trees) + the other parts' bytes"""
+    out = {}
+    for p in ("content.xml", "styles.xml", "meta.xml", "settings.xml", "META-INF/manifest.xml"):
+        out[p] = S.canon(doc.get_part(p).root._Element__element)
+    for p in doc.container.present():
+        if p not in out:
+            out[p] = doc.container.get_part(p)
+    return out
+
+
+import os
+
+MASK = int(os.environ.get("VERIF_MASK", "0"))  # (add_blob, del_blob, edit_clone) concrete per process
+
+
+def doc_clone(touch_body: bool, touch_styles: bool, touch_meta: bool, add_blob: bool) -> bool:
+    """
+    post: _
+    """
+    t = "ab"
+    del_blob, edit_clone = bool(MASK & 1), bool(MASK & 2)
+    # Document.clone: equal at birth whatever was edited since the parts were loaded (body, styles,
+    # metadata, a binary part added - manifest entry included - or deleted), cloning leaves the
+    # original as it was, and afterwards an edit of either one is not seen by the other
+    from odfdo.document import Blob
+    from odfdo.paragraph import Paragraph
+    from odfdo.style import Style
+    doc = memdoc({"Pictures/old.png": b"old"})
+    doc.manifest.add_full_path("Pictures/old.png", "image/png")
+    if touch_body:
+        doc.body.append(Paragraph("x" + t))
+    if touch_styles:
+        doc.insert_style(Style("paragraph", name="S" + t))
+    if touch_meta:
+        doc.meta.title = "T" + t
+    if add_blob:
+        b = Blob()
+        b.name, b.content, b.mime_type = "a.png", b"data", "image/png"
+        doc._add_binary_part(b)
+    if del_blob:
+        doc.del_part("Pictures/old.png")
+    before = _doc_state(doc)
+    c = doc.clone
+    ok = _doc_state(doc) == before            # cloning never modifies the original
+    ok = ok and _doc_state(c) == before       # equal at birth
+    ok = ok and sorted(c.container.present()) == sorted(doc.container.present())
+    a, b2 = (c, doc) if edit_clone else (doc, c)
+    a.body.append(Paragraph("y"))
+    a.meta.title = "other"
+    a.manifest.add_full_path("Pictures/z.png", "image/png")
+    a.container.set_part("Pictures/z.png", b"z")
+    return done(ok and _doc_state(b2) == before)
